@@ -560,6 +560,9 @@ func runC15(o Opts) *Result {
 	uniq := map[uint64]bool{}
 	nCorr, nMon := 0, 0
 	for idx := 0; idx < o.N; idx++ {
+		if timeUp() {
+			break
+		}
 		if o.Only >= 0 && idx != o.Only {
 			continue
 		}
@@ -629,6 +632,9 @@ func runC17(o Opts) *Result {
 	uniq := map[uint64]bool{}
 	ctx := context.Background()
 	for idx := 0; idx < o.N; idx++ {
+		if timeUp() {
+			break
+		}
 		if o.Only >= 0 && idx != o.Only {
 			continue
 		}
